@@ -51,6 +51,10 @@ def dispatchC02 : List Str → Option (List Str)
         match InitialValue.declVars s with
         | .ok vs => some ("ok".toList :: (vs.map varFieldsInit).flatten)
         | .error e => some ["err".toList, rerrNameInit e]
+      | [j, s] =>
+        match InitialValue.declVars s (j == ['1']) with
+        | .ok vs => some ("ok".toList :: (vs.map varFieldsInit).flatten)
+        | .error e => some ["err".toList, rerrNameInit e]
       | _ => some ["bad-request".toList]
     else if cmd == "c02.cut".toList then
       -- c02.cut <statement> : masked statement, then the literals cut out of it
